@@ -184,6 +184,8 @@ pub struct Observed {
     pub notes: Vec<String>,
     /// ops actually issued (the script stops when the session is gone)
     pub issued: usize,
+    /// every transfer the script wrote: (index into `outs` of its op, `handle:txn:tag:more:aborted`)
+    pub frame_log: Vec<(usize, String)>,
 }
 
 fn label_body(label: u32, size: usize) -> Vec<u8> {
@@ -200,9 +202,32 @@ struct Script {
     /// delivery-count per our sending link (handle -> count)
     tag: u32,
     session_gone: Option<String>,
+    /// the op being issued, and per transfer written: (op, what `TxnSession::on_incoming_transfer` looks at)
+    cur_op: usize,
+    frame_log: Vec<(usize, String)>,
+    txn_names: Vec<Vec<u8>>,
 }
 
 impl Script {
+    /// `handle:txn:tag:more:aborted` of a transfer about to be written, for the routing model
+    fn note(&mut self, t: &fe2o3_amqp_types::performatives::Transfer, op: usize) {
+        let txn = match &t.state {
+            Some(DeliveryState::TransactionalState(st)) => {
+                let b: Vec<u8> = st.txn_id.to_vec();
+                let k = match self.txn_names.iter().position(|x| *x == b) {
+                    Some(k) => k,
+                    None => {
+                        self.txn_names.push(b);
+                        self.txn_names.len() - 1
+                    }
+                };
+                k.to_string()
+            }
+            _ => "-".to_string(),
+        };
+        self.frame_log.push((op, format!("{}:{}:{}:{}:{}", t.handle.0, txn, t.delivery_tag.is_some() as u8, t.more as u8, t.aborted as u8)));
+    }
+
     /// a delivery that is begun (one frame with `more`, carrying `state`) and aborted by its second frame
     async fn aborted_attempt(&mut self, handle: u32, state: Option<DeliveryState>) -> Result<(), PeerError> {
         self.aborted_attempt_with(handle, state, false).await
@@ -213,10 +238,12 @@ impl Script {
         self.tag += 1;
         let mut t = transfer(handle, Some(id), Some(self.tag.to_be_bytes().to_vec()), Some(false), true);
         t.state = state;
+        self.note(&t, self.cur_op);
         self.peer.send(0, Performative::Transfer(t), &[0x00, 0x53, 0x77, 0xa0, 0x20, 1, 2, 3, 4, 5]).await?;
         self.next_out = self.next_out.wrapping_add(1);
         let mut a = transfer(handle, None, None, None, more);
         a.aborted = true;
+        self.note(&a, self.cur_op);
         self.peer.send(0, Performative::Transfer(a), &[]).await?;
         self.next_out = self.next_out.wrapping_add(1);
         Ok(())
@@ -235,6 +262,7 @@ impl Script {
             if first || state_on_all {
                 t.state = state.clone();
             }
+            self.note(&t, self.cur_op);
             self.peer.send(0, Performative::Transfer(t), p).await?;
             self.next_out = self.next_out.wrapping_add(1);
         }
@@ -269,6 +297,7 @@ impl Script {
                     if first || all {
                         t.state = if which == 0 { state.0.clone() } else { state.1.clone() };
                     }
+                    self.note(&t, self.cur_op + which);
                     self.peer.send(0, Performative::Transfer(t), p).await?;
                     self.next_out = self.next_out.wrapping_add(1);
                 }
@@ -399,7 +428,7 @@ pub fn run_case(case: &Case) -> Result<Observed, String> {
             (_, Performative::Begin(_), _) => {}
             (_, other, _) => return Err(format!("expected begin, got {}", summarize(&other, 0))),
         }
-        let mut sc = Script { peer, next_out: 0, ctrl_handles: vec![], data_handles: vec![], tag: 0, session_gone: None };
+        let mut sc = Script { peer, next_out: 0, ctrl_handles: vec![], data_handles: vec![], tag: 0, session_gone: None, cur_op: 0, frame_log: vec![], txn_names: vec![] };
         // links: control links first
         let mut handle = 0u32;
         for c in 0..case.ctrl_links {
@@ -456,6 +485,7 @@ pub fn run_case(case: &Case) -> Result<Observed, String> {
                 continue;
             }
             obs.issued += 1;
+            sc.cur_op = obs.outs.len();
             if case.interleave.contains(&op_index) {
                 if let (Op::Post { link: la, txn: ta, frames, settled: sa, state_on_all: aa, .. }, Some(Op::Post { link: lb, txn: tb, settled: sb, state_on_all: ab, .. })) = (op, case.ops.get(op_index + 1)) {
                     let ha = sc.data_handles[*la % sc.data_handles.len()];
@@ -663,6 +693,7 @@ pub fn run_case(case: &Case) -> Result<Observed, String> {
         let _ = sc.peer.close_politely().await;
         sc.peer.recv_timeout = Duration::from_millis(200);
         let _ = sc.peer.recv_frame().await;
+        obs.frame_log = std::mem::take(&mut sc.frame_log);
         drop(sc);
         let _ = tokio::time::timeout(Duration::from_secs(60), listener).await;
         obs.delivered = delivered.lock().unwrap().clone();
@@ -1484,6 +1515,9 @@ pub fn main(opts: &Opts) {
             }
         }
     }
+    let mut route_lines: Vec<String> = vec![];
+    let mut route_want: Vec<Vec<char>> = vec![];
+    let mut route_cases: Vec<J> = vec![];
     let n: u64 = if opts.thorough() { 4000 } else { 300 };
     for k in 0..(n + corpus.len() as u64) {
         let case = if (k as usize) < corpus.len() { corpus[k as usize].clone() } else { gen_case(&mut rng, k % 4 == 3) };
@@ -1520,6 +1554,27 @@ pub fn main(opts: &Opts) {
                 imp.push(i);
                 cases_of_line.push(case.to_json());
                 links_of_line.push(case.data_links);
+                // the routing model: per transfer written, withheld (under which transaction) or handed on.  What
+                // can be seen of that from outside is per delivery: a post that was answered with a transactional
+                // outcome had all its frames withheld, one that was answered with `accepted` (or delivered at once)
+                // none; only runs in which the session stayed up are looked at (the model takes every id for live)
+                if !obs.frame_log.is_empty() && !obs.outs.iter().any(|o| o.starts_with("SE") || o.starts_with('?') && o.len() > 1) {
+                    let mut want = vec![];
+                    for (op, _) in &obs.frame_log {
+                        let is_attempt = matches!(case.ops.get(*op), Some(Op::Aborted { .. }));
+                        want.push(match obs.outs.get(*op).map(|x| x.as_str()) {
+                            Some("B") => 'W',
+                            Some("V") => 'D',
+                            // an aborted attempt under a live transaction is withheld; declare / discharge messages are plain
+                            _ if is_attempt => 'W',
+                            Some(o) if o.starts_with('D') || o == "A" || o.starts_with('R') => 'D',
+                            _ => '?',
+                        });
+                    }
+                    route_lines.push(format!("T route {}", obs.frame_log.iter().map(|x| x.1.clone()).collect::<Vec<_>>().join(" ")));
+                    route_want.push(want);
+                    route_cases.push(case.to_json());
+                }
             }
             Err(e) => report.finding(Finding { kind: "violation", key: "resource:scenario-failed".into(), description: e, replay: json!({"property": prop, "module": "txn", "resource": case.to_json()}) }),
         }
@@ -1565,6 +1620,32 @@ pub fn main(opts: &Opts) {
                 report.count_n("lines_disagreeing_with_model", bad);
             }
             Err(e) => report.notes.push(format!("model driver failed: {}", e)),
+        }
+        match run_driver(&route_lines) {
+            Ok(model) => {
+                report.model_lines += model.len() as u64;
+                let mut bad = 0u64;
+                let mut frames = 0u64;
+                let mut withheld = 0u64;
+                for i in 0..model.len().min(route_want.len()) {
+                    let got: Vec<char> = model[i].split(' ').map(|w| w.chars().next().unwrap_or('?')).collect();
+                    let want = &route_want[i];
+                    frames += want.len() as u64;
+                    withheld += want.iter().filter(|c| **c == 'W').count() as u64;
+                    let differs = got.len() != want.len() || got.iter().zip(want.iter()).any(|(g, w)| *w != '?' && g != w);
+                    if differs {
+                        if bad == 0 {
+                            report.finding(Finding { kind: "disagreement", key: "route-model-vs-implementation".into(), description: format!("{} -> the model routes the transfers [{}], the outcomes the peer saw say [{}] (W = withheld under a transaction, D = handed to the link)", route_lines[i], model[i], want.iter().collect::<String>()), replay: json!({"property": prop, "module": "txn", "resource": route_cases[i], "line": route_lines[i], "model": model[i], "implementation": want.iter().collect::<String>()}) });
+                        }
+                        bad += 1;
+                    }
+                }
+                report.count_n("route_lines_compared", model.len() as u64);
+                report.count_n("route_frames_compared", frames);
+                report.count_n("route_frames_withheld", withheld);
+                report.count_n("route_lines_disagreeing_with_model", bad);
+            }
+            Err(e) => report.notes.push(format!("model driver failed on the route lines: {}", e)),
         }
     } else {
         report.notes.push("model driver not available: correspondence skipped".into());
